@@ -164,7 +164,7 @@ def gen_scenarios(ctx, count, controlled, tag):
         dump = sum(x["n"] for x in infos) <= 30000 and rng.random() < 0.25
         if dump:
             extra = " dump=1"
-        line = "scn %s%d %s%s %s" % (tag, i, st, extra, " ".join(streams))
+        line = "scn %s%d wd=90 %s%s %s" % (tag, i, st, extra, " ".join(streams))
         out.append((line, dict(cat=cat, sched=sname, streams=infos, dump=dump)))
     return out
 
@@ -228,7 +228,7 @@ def fallback_scenarios(ctx, tag):
     return out
 
 
-def run_lines_resilient(exe, lines, env=None, timeout=1500, max_deaths=4):
+def run_lines_resilient(exe, lines, env=None, timeout=1500, max_deaths=3):
     """Returns one (kind, text, stderr) per line; kind in ok/FAIL/DEADLOCK/CRASH/bad-op. After `max_deaths` process deaths
     (crash / deadlock verdict / watchdog) the remaining lines are not run (None): the property is already refuted and every
     further hang would cost a full watchdog period."""
